@@ -59,7 +59,14 @@ def program_strategy_c(draw, cfg, cache):
         if draw(st.sampled_from(range(3))) == 0:
             body = [['q', draw(st.sampled_from(['exists', 'list_dir', 'is_dir'])), os.path.dirname(tgt), 'METADATA']] + body
         funcs[fn] = {'kind': 'file', 'body': body}
-        root.append(['bf', tgt, fn, [], draw(st.sampled_from(['METADATA', 'HASH'])), draw(st.sampled_from([True, True, True, False]))])
+        call = ['bf', tgt, fn, [], draw(st.sampled_from(['METADATA', 'HASH'])), draw(st.sampled_from([True, True, True, False]))]
+        if draw(st.sampled_from(range(5))) < 2:
+            # the call is issued by a cacheable parent that catches its failure (records below a caught failure are reused later)
+            pn = 'p%d' % k
+            k += 1
+            funcs[pn] = {'kind': 'sub', 'body': [call[:5] + [True]]}
+            call = ['sb', pn, [], True]
+        root.append(call)
         # the view right after the call: target and every ancestor
         root.append(['q', 'exists', tgt, 'METADATA'])
         d = os.path.dirname(tgt)
